@@ -184,11 +184,119 @@ Fixpoint walk (ns : list ninfo) (insts : list nat) (s : rstate) (l : list inj) (
       end
   end.
 
-Definition check (c : case) : list nat :=
-  if negb (in_scope c) then [] else
-  match k_final c with
-  | FAlive => walk (nodes (k_tree c)) (k_insts c) [] (k_msgs c) (k_obs c)
-  | _ => [6]
+(* ---- the property text on scenarios OUTSIDE the hypotheses of the theorems ----
+   The text does not restrict how the children's messages of consecutive rounds
+   interleave, and it does not say that only children send the type.  Read
+   literally: per instance and aggregated type, the r-th batch is due when every
+   child has sent its r-th message; it holds exactly the r-th message of every
+   child and is due with the arrival of the last of them.  A message of the type
+   from a tree member that is neither parent nor child belongs to no batch, and a
+   message that fails the sender check of C02 (unknown sender, wrong peer) is
+   never delivered and counts for nothing.  [text_step] computes that reading
+   (the round state holds the pending (child, element) pairs in arrival order). *)
+
+Definition all_present (cs : list nat) (pend : list (nat * oelem)) : bool :=
+  forallb (fun c => existsb (fun p => fst p =? c) pend) cs.
+
+(* remove the first entry of child c *)
+Fixpoint take_first (c : nat) (pend : list (nat * oelem)) : option oelem * list (nat * oelem) :=
+  match pend with
+  | [] => (None, [])
+  | p :: r => if fst p =? c then (Some (snd p), r)
+              else let (e, r') := take_first c r in (e, p :: r')
   end.
+
+Fixpoint take_round (cs : list nat) (pend : list (nat * oelem)) : list oelem * list (nat * oelem) :=
+  match cs with
+  | [] => ([], pend)
+  | c :: cs' =>
+      let (e, rest) := take_first c pend in
+      let (es, rest') := take_round cs' rest in
+      (match e with Some e => e :: es | None => es end, rest')
+  end.
+
+Definition text_step (ns : list ninfo) (insts : list nat) (s : rstate) (x : inj)
+  : option (rstate * mkind * option odeliv) :=
+  match nth_error insts (i_inst x) with
+  | None => None
+  | Some to_id =>
+      match search ns to_id with
+      | None => None
+      | Some (_, me) =>
+          let ty := w_type (i_wire x) in
+          let valid :=
+            match w_from (i_wire x) with
+            | None => None
+            | Some f =>
+                match search ns f with
+                | None => None
+                | Some (pos, n) =>
+                    if match i_env x with PNone => true | PNoKey => false | PKey k => k =? n_srv n end
+                    then Some (f, {| o_node := OPos pos; o_payload := w_payload (i_wire x) |}) else None
+                end
+            end in
+          match valid with
+          | None => Some (s, KUnhandled, None)            (* refused by the sender check: nothing is due *)
+          | Some (f, e) =>
+              match lookup std_regs ty with
+              | None => Some (s, KUnhandled, None)
+              | Some (_, false) =>
+                  Some (s, KSingle, Some {| od_inst := i_inst x; od_type := ty; od_agg := false; od_elems := [e] |})
+              | Some (_, true) =>
+                  if opt_eqb (n_par me) (Some f) then
+                    Some (s, KParent, Some {| od_inst := i_inst x; od_type := ty; od_agg := true; od_elems := [e] |})
+                  else
+                    let cs := children_ids ns me in
+                    if negb (existsb (Nat.eqb f) cs) then Some (s, KUnhandled, None)   (* not a child: in no batch *)
+                    else
+                      let pend := rget s (i_inst x) ty ++ [(f, e)] in
+                      if all_present cs pend then
+                        let (es, rest) := take_round cs pend in
+                        Some (rset s (i_inst x) ty rest, KChild true,
+                              Some {| od_inst := i_inst x; od_type := ty; od_agg := true; od_elems := es |})
+                      else Some (rset s (i_inst x) ty pend, KChild false, None)
+              end
+          end
+      end
+  end.
+
+Fixpoint text_walk (ns : list ninfo) (insts : list nat) (s : rstate) (l : list inj) (obs : list odeliv) : list nat :=
+  match l with
+  | [] => match obs with
+          | [] => []
+          | o :: _ => if is_agg_type (od_type o) then [2] else [5]
+          end
+  | x :: r =>
+      match text_step ns insts s x with
+      | None => []
+      | Some (s', k, None) => text_walk ns insts s' r obs
+      | Some (s', k, Some d) =>
+          match obs with
+          | o :: obs' => if deliv_equiv d o then text_walk ns insts s' r obs' else [blame k (Some d) (Some o)]
+          | [] => [blame k (Some d) None]
+          end
+      end
+  end.
+
+(* node ids repeat (a server hosts two nodes): "the children" are not well
+   defined by id; the only scenarios left unjudged *)
+Definition judgeable (c : case) : bool := nodupb (map n_id (nodes (k_tree c))).
+
+(* Within the hypotheses of the theorems the expectation is [spec_run]'s (proved
+   to be the model's behaviour, c04_model_meets_spec); outside, the literal
+   reading above.  A crash / hang: clause 6 when every message was legitimate
+   (in scope); otherwise the walk over the truncated observation reports it. *)
+Definition check (c : case) : list nat :=
+  if in_scope c then
+    match k_final c with
+    | FAlive => walk (nodes (k_tree c)) (k_insts c) [] (k_msgs c) (k_obs c)
+    | _ => [6]
+    end
+  else if judgeable c then
+    match k_final c with
+    | FAlive => text_walk (nodes (k_tree c)) (k_insts c) [] (k_msgs c) (k_obs c)
+    | _ => [6]
+    end
+  else [].
 
 Definition violations (l : list case) : list (nat * nat) := viols check l.
